@@ -221,9 +221,67 @@ def run(c):
         c.finding_or_violation({"kind": "secstate", "what": "a program started in a new user namespace is under an id mapping other than the configured one (launches running at the same time)",
                                 "failed_to_start": bool(w0["Err"])}, {"workers": 8, "mapping_of_worker_w": "uid 0 -> 1000+w (w+1 ids), gid 0 -> 3000+w (w+1 ids)",
                                                                       "wrong_launches": cio["wrong"]}, klass="concurrent-idmaps")
+    # ---- the text the launcher writes to uid_map / gid_map (seen with strace on the launching thread) against Launch/IdMap.v, in Coq
+    import re, subprocess, codecs
+    fexe = c.build_harness("h_fdtrace")
+    fdir = c.tmpdir("idmaps")
+    trp = os.path.join(fdir, "trace.txt")
+    pr = subprocess.run(["strace", "-o", trp, "-s", "4096", "-e", "trace=openat,write,close", fexe, "idmaps"], env=dict(env, VERIF_SCRATCH=fdir),
+                        stdout=subprocess.PIPE, stderr=subprocess.PIPE, timeout=300)
+    if pr.returncode != 0:
+        raise RuntimeError("h_fdtrace idmaps under strace: rc %d %s" % (pr.returncode, pr.stderr.decode(errors="replace")[-300:]))
+    conf = {}
+    for ln in pr.stdout.decode().splitlines():
+        if ln.startswith("{"):
+            j = json.loads(ln)
+            conf[j["case"]] = j
+    texts, cur, mapfd = {}, None, {}
+    for ln in open(trp, errors="replace"):
+        m = re.match(r'write\(-1, "case:(end:)?idmap(\d+)"', ln)
+        if m:
+            cur = None if m.group(1) else int(m.group(2))
+            mapfd = {}
+            continue
+        if cur is None:
+            continue
+        m = re.match(r'openat\(.*"/proc/\d+/(uid_map|gid_map)".*\) = (\d+)', ln)
+        if m:
+            mapfd[int(m.group(2))] = m.group(1)
+            continue
+        m = re.match(r'write\((\d+), "((?:[^"\\]|\\.)*)"(\.\.\.)?, \d+\)\s+= (-?\d+)', ln)
+        if m and int(m.group(1)) in mapfd:
+            texts[(cur, mapfd[int(m.group(1))])] = codecs.decode(m.group(2), "unicode_escape").encode("latin-1")
+            continue
+        m = re.match(r'close\((\d+)\)', ln)
+        if m:
+            mapfd.pop(int(m.group(1)), None)
+    iitems, isrc = [], []
+    for k, j in sorted(conf.items()):
+        for which, eid in (("uid", j["euid"]), ("gid", j["egid"])):
+            t = texts.get((k, which + "_map"))
+            c.count(("idmap-text", k, which), nontrivial=True, klass="idmap-text")
+            if t is None or not j["started"]:
+                c.finding_or_violation({"kind": "secstate", "what": "a launch with id mappings fails or writes no mapping", "mappings": j[which]}, {"case": j, "text": None if t is None else t.decode()},
+                                       klass="idmap-text")
+                continue
+            cfgs = "None" if j[which] is None else "(Some [%s])" % "; ".join("(%d, %d, %d)" % tuple(x) for x in j[which])
+            iitems.append("(%s, %d, [%s])" % (cfgs, eid, "; ".join(str(b) for b in t)))
+            isrc.append((k, which, j[which], t.decode()))
+            # independent oracle: the lines of the text are the configured triples
+            want = [[0, eid, 1]] if j[which] is None else j[which]
+            got = [[int(f) for f in l.split(" ")] for l in t.decode().split("\n") if l]
+            if got != want:
+                c.finding_or_violation({"kind": "secstate", "what": "the id mapping written for the child is not the configured one", "configured": want, "written": got},
+                                       {"case": j, "text": t.decode()}, klass="idmap-text")
+    body = ("From Coq Require Import List NArith.\nImport ListNotations.\nOpen Scope N_scope.\nFrom GS Require Import Launch.IdMap.\n"
+            "Definition cs : list (option (list (N * N * N)) * N * list N) := %s.\nDefinition MI := Eval vm_compute in failing idmap_ok cs.\nPrint MI.\n" % coq_list(iitems))
+    ibad = c.parse_nums(c.parse_printed(c.coq_eval("idmaps", body), "MI").replace("%N", ""))
+    c.cov["idmap_texts_compared_in_coq"] = len(iitems)
+    idmap_dis = [{"relation": "idmap_ok (text written to uid_map / gid_map = Launch/IdMap.written, and reads back as the configuration)", "case": isrc[i][0], "which": isrc[i][1],
+                  "configured": isrc[i][2], "written": isrc[i][3]} for i in ibad]
     c.cov["container_launch_histories"] = nhist
     c.sample({"configuration": cases[300], "probe_report": {k: v for k, v in (obs[300].get("state") or {}).items() if k != "ns"}, "stops": obs[300].get("stops")})
-    dis = []
+    dis = list(idmap_dis)
     for s0 in range(0, len(items), 600):
         body = HDR + "Definition cs : list (config * kst * bool * option obs) := %s.\nDefinition M := Eval vm_compute in failing state_ok cs.\nPrint M.\n" % coq_list(items[s0:s0 + 600])
         for i in c.parse_nums(c.parse_printed(c.coq_eval("states%d" % s0, body, timeout=1200), "M").replace("%N", "")):
